@@ -46,7 +46,7 @@ def shrink_candidates(inp):
     if len(parts) < 13:
         return
     s = parts[12]
-    if s == "-" or "+" in s:
+    if s == "-" or "+" in s or "&" in s:
         return
     if "@" in s:
         # "<plain>@<secure>" (STARTTLS): drop one line of either part
